@@ -1,4 +1,4 @@
-import PeptVerif.Lemmas.CompCalc
+import PeptVerif.Lemmas.ModTablesBridge
 /-!
 C03 — mass calculator ≡ composition calculator + residual delta.  Property theorems only.
 -/
@@ -71,10 +71,13 @@ theorem comp_estimate_mass (c : Comp) (δ : Rat) :
 `ε = PROTON_MASS − (m(H) − mₑ)` and `k` = the number of charges the fast path adds as `PROTON_MASS` where the
 composition adds `H − e` (`charge` for `p`/`n`, `charge − 1` for the 16 fragment types):
 
-for every annotation whose written modifications resolve self-consistently in the mode (a plain shift, or a
-composition whose mass in that mode is the tabulated mass: `AllConsistent`), every placement (labile, unknown,
+for every annotation whose written modifications resolve (a plain shift, or a composition together with a tabulated
+mass: `AllConsistent`), every placement (labile, unknown,
 termini, intervals, residues) and multiplier, every known ion type, any charge (argument or annotation, any sign), any
-isotope offset and loss, both modes.  |ε| ≤ 2·10⁻⁸ in monoisotopic mode (`C02.particles_ok`); in average mode
+isotope offset and loss, both modes.  `gapSum` = Σ over the written modifications of multiplier × (tabulated mass −
+mass of the tabulated composition): 0 for exactly self-consistent rows (`gapSum_exact`), bounded row by row for the
+vocabularies by `unimod_mono_consistent`, `unimod_avg_chnops_consistent`, `psimod_mono_excluded` through `row_gap`.
+|ε| ≤ 2·10⁻⁸ in monoisotopic mode (`C02.particles_ok`); in average mode
 `m(H)` is the average hydrogen mass and ε = −1.157·10⁻⁴.
 
 Partial: this theorem is the case without global static rules (`a.static = none`); `mass_eq_compMass_static` is the
@@ -88,7 +91,8 @@ theorem mass_eq_compMass_partial (env : Env) (a : Annotation) (o : Opts)
     (hadj : (lookup o.ion neutralAdj).isSome = true)
     (hion : o.ion = ionP ∨ o.ion = ionN ∨ (lookup o.ion Gen.ionComp).isSome = true) :
     ∃ c d, compMass env a o.ion o.charge o.isotope none none o.useIsotopeOnMods = .ok (c, d) ∧
-      mass env a o = .ok (chemMassL (μ o.mono) c + d + o.loss + kProtons a o * (Gen.protonMass - hplus o.mono)) :=
+      mass env a o = .ok (chemMassL (μ o.mono) c + d + o.loss + kProtons a o * (Gen.protonMass - hplus o.mono)
+        + gapSum env o.mono (Spec.placedMods a o.ion)) :=
   mass_eq_compMass_of_tables ion_tables_agree env a o hstatic hl hl' had had' hprec hres hcons hadj hion
 
 /-- **the same identity with global static rules** (`<[mods]@targets>`, including `N-Term`, `C-Term` and multi-residue
@@ -104,8 +108,79 @@ theorem mass_eq_compMass_static (env : Env) (a : Annotation) (o : Opts)
     (hadj : (lookup o.ion neutralAdj).isSome = true)
     (hion : o.ion = ionP ∨ o.ion = ionN ∨ (lookup o.ion Gen.ionComp).isSome = true) :
     ∃ c d, compMass env a o.ion o.charge o.isotope none none o.useIsotopeOnMods = .ok (c, d) ∧
-      mass env a o = .ok (chemMassL (μ o.mono) c + d + o.loss + kProtons a o * (Gen.protonMass - hplus o.mono)) :=
+      mass env a o = .ok (chemMassL (μ o.mono) c + d + o.loss + kProtons a o * (Gen.protonMass - hplus o.mono)
+        + (gapSum env o.mono (Spec.placedMods a o.ion) + mapGap env o.mono a.seq map)) :=
   mass_eq_compMass_static_of_tables ion_tables_agree env a o st map hs hp hl hl' had had' hprec hres hcons hadj hion
+
+/-- with exactly self-consistent rows (tabulated mass = mass of the composition in the mode; every numeric, formula and
+glycan modification is such a row) the gap term vanishes and the identity is `mass = chem_mass(comp) + δ + loss + k·ε` -/
+theorem gapSum_exact (env : Env) (mono : Bool) (l : List Mod) (h : ∀ m ∈ l, ExactlyConsistent env mono m.val) :
+    gapSum env mono l = 0 := gapSum_zero env mono l h
+
+/-! ### exhaustive clause: every vocabulary row against this work package's element table -/
+
+open Pept.ModTables in
+/-- **every Unimod entry** (1522): |tabulated monoisotopic mass − chem_mass(tabulated composition)| ≤ 1e-4, with the
+composition text read by the formula model and the masses of `Model/Chem.lean` (recomputed from data/chem.txt) -/
+theorem unimod_mono_consistent : Gen.Unimod.entries.all monoOk = true := unimod_mono_consistent'
+
+open Pept.ModTables ModDb in
+/-- **average mode, exact excluded set**: the Unimod entries whose tabulated average mass is NOT within 1e-3 + 5 ppm of
+the average mass of their composition are exactly these six (Hg, Mo ×3, Cu/Mo, Zn: the upstream table uses other
+standard atomic weights for metals) -/
+theorem unimod_avg_excluded :
+    failing avgOk Gen.Unimod.entries = [str% "291", str% "391", str% "415", str% "424", str% "444", str% "954"] :=
+  unimod_avg_excluded'
+
+open Pept.ModTables in
+/-- … and every Unimod entry composed of C, H, N, O, P, S and their isotopes is within 1e-3 + 5 ppm -/
+theorem unimod_avg_chnops_consistent : Gen.Unimod.entries.all (fun e => avgOk e || !isChnops e) = true :=
+  unimod_avg_chnops_consistent'
+
+open Pept.ModTables in
+/-- **PSI-MOD**: of the 1541 rows that carry a monoisotopic mass and a composition, the rows that are not self-consistent
+within 1e-4 are exactly the 63 of `psimodMonoExcluded` (charged species off by one electron mass, iron-sulfur clusters …);
+every other row is consistent -/
+theorem psimod_mono_excluded : failing monoOk (rows Gen.PsiMod.entries) = psimodMonoExcluded := psimod_mono_excluded'
+
+open Pept.ModTables in
+/-- PSI-MOD average masses are tabulated with other atomic weights (often 2 decimals): 1048 of the 1541 rows are outside
+1e-3 + 5 ppm; the property quantifies over the self-consistent rows only -/
+theorem psimod_avg_counts :
+    (rows Gen.PsiMod.entries).length = 1541 ∧ (failing avgOk (rows Gen.PsiMod.entries)).length = 1048 :=
+  psimod_avg_counts'
+
+open Pept.ModTables in
+/-- **from a checked row to the gap term**: if the resolver answers a value with the row's composition and tabulated
+monoisotopic mass, `k` copies of it contribute exactly `k·(m − chem_mass(c))` to `gapSum`, at most `|k|·1e-4` -/
+theorem row_gap_mono (env : Env) (e : ModDb.Entry) (he : monoOk e = true) (v : ModVal) (k : Int) :
+    ∃ c m, entryComp e = some c ∧ e.mono = some m ∧
+      ((env.res v).delta = .ok none → (env.res v).comp = .ok c → (env.res v).mono = .ok m.toRat →
+        gapOf env true ⟨v, k⟩ ≤ 1 / 10000 * Mass.absQ (k : Rat) ∧
+        -(1 / 10000 * Mass.absQ (k : Rat)) ≤ gapOf env true ⟨v, k⟩) := by
+  obtain ⟨c, m, x, hc, hm, hx, hb⟩ := monoOk_unfold e he
+  refine ⟨c, m, hc, hm, ?_⟩
+  intro hd hcomp hmono
+  obtain ⟨_, hxx⟩ := massOf_eq true c x hx
+  obtain ⟨b1, b2⟩ := absQ_bounds _ _ hb
+  have := gapOf_row env true v k c m.toRat x (1 / 10000) hd hcomp hmono hxx ⟨by linarith, by linarith⟩
+  exact ⟨this.2.1, this.2.2⟩
+
+open Pept.ModTables in
+/-- the same in average mode with the row's own tolerance 1e-3 + 5 ppm·|m| -/
+theorem row_gap_avg (env : Env) (e : ModDb.Entry) (he : avgOk e = true) (v : ModVal) (k : Int) :
+    ∃ c m, entryComp e = some c ∧ e.avg = some m ∧
+      ((env.res v).delta = .ok none → (env.res v).comp = .ok c → (env.res v).avg = .ok m.toRat →
+        gapOf env false ⟨v, k⟩ ≤ (1 / 1000 + 5 / 1000000 * ModTables.absQ m.toRat) * Mass.absQ (k : Rat) ∧
+        -((1 / 1000 + 5 / 1000000 * ModTables.absQ m.toRat) * Mass.absQ (k : Rat)) ≤ gapOf env false ⟨v, k⟩) := by
+  obtain ⟨c, m, x, hc, hm, hx, hb⟩ := avgOk_unfold e he
+  refine ⟨c, m, hc, hm, ?_⟩
+  intro hd hcomp hmono
+  obtain ⟨_, hxx⟩ := massOf_eq false c x hx
+  obtain ⟨b1, b2⟩ := absQ_bounds _ _ hb
+  have := gapOf_row env false v k c m.toRat x (1 / 1000 + 5 / 1000000 * ModTables.absQ m.toRat) hd hcomp hmono hxx
+    ⟨by linarith, by linarith⟩
+  exact ⟨this.2.1, this.2.2⟩
 
 /-- the size of ε: monoisotopic |ε| ≤ 2·10⁻⁸, average |ε| ≤ 1.2·10⁻⁴ — so the two calculators differ by at most
 `|k|·2·10⁻⁸` Da (mono) resp. `|k|·1.2·10⁻⁴` Da (average), inside the property's 10⁻⁴ / 10⁻³ for |k| ≤ 8 -/
@@ -140,7 +215,7 @@ example : AllConsistent ⟨fun v => if v = .int 7 then ⟨.ok 7, .ok 7, .ok (som
     List.append_nil, List.nil_append, List.cons_append, List.mem_cons, List.mem_nil_iff, or_false] at hm
   rcases hm with rfl | rfl | rfl
   · exact Or.inl ⟨7, rfl, rfl⟩
-  · exact Or.inr ⟨[(kO, 1)], rfl, rfl, rfl⟩
+  · exact Or.inr ⟨[(kO, 1)], _, rfl, rfl, rfl⟩
   · exact Or.inl ⟨7, rfl, rfl⟩
 example : KnownResidues ['P', 'E', 'P', 'T', 'I', 'D', 'E'] := by
   intro ch hch
